@@ -265,7 +265,8 @@ def _anchor_point(pt):
             if not (r[0] == "exc" and r[1] == "ValueError"):
                 viol.append(core.violation(
                     dict(what="octave_low_accepted", sign="zero" if val == 0 else "negative"),
-                    "OctaveScaling(low_hz=%r): expected ValueError, got %r" % (val, r[:2]),
+                    "OctaveScaling(low_hz=%r): expected ValueError, got %s" % (
+                        val, "an instance" if r[0] == "ok" else r[1]),
                     dict(kind=kind, val=val)))
             obs = "rejected"
         else:
@@ -280,8 +281,9 @@ def _anchor_point(pt):
     r = computers.call(scales.MelScaling().hertz_to_scale, 1000.0)
     if r[0] != "ok" or not abs(float(r[1]) - 1000.0) <= 0.02:
         viol.append(core.violation(dict(what="mel_anchor"),
-                                   "MelScaling().hertz_to_scale(1000.0) = %r, expected 1000 +- 0.02"
-                                   % (r[1:],), dict(kind=kind, val=val)))
+                                   "MelScaling().hertz_to_scale(1000.0) = %s, expected 1000 +- 0.02"
+                                   % (repr(float(r[1])) if r[0] == "ok" else r[1:],),
+                                   dict(kind=kind, val=val)))
     return core.result(viol, obs="mel1000", sample=dict(kind=kind))
 
 
